@@ -540,6 +540,37 @@ fn c14_families(th: bool, single: &[Op], last_pos: &[Op]) -> Vec<(Family, usize)
     }
   }
   let two = |op: &Op| Node::opx(op.clone(), Node::Src(0), vec![Node::Src(1)]);
+  // (d') hot inputs: a second subscription (while the first is live, or after it ended) whose
+  // inputs signal in a different order than they did for the first
+  {
+    let phase = |k: i64| -> Vec<Vec<Act>> {
+      let mut v = interleavings(&[vec![Ev::n(1 + k), Ev::C], vec![Ev::n(11 + k), Ev::C]]);
+      v.extend(interleavings(&[vec![Ev::n(1 + k)], vec![Ev::n(11 + k)]]));
+      v
+    };
+    let mut w_h = vec![];
+    for p1 in phase(0) {
+      for p2 in phase(1) {
+        let ends = p1.iter().filter(|a| matches!(a, Act::Emit(_, Ev::C))).count() == 2;
+        let mut acts = vec![Act::Sub(0)];
+        acts.extend(p1.clone());
+        if !ends {
+          // both alive, and first one unsubscribed before the second arrives
+          let mut a2 = acts.clone();
+          a2.push(Act::Unsub(0));
+          a2.push(Act::Sub(1));
+          a2.extend(p2.clone());
+          w_h.push(World { srcs: vec![SrcKind::Hot, SrcKind::Hot], acts: a2 });
+        }
+        acts.push(Act::Sub(1));
+        acts.extend(p2.clone());
+        w_h.push(World { srcs: vec![SrcKind::Hot, SrcKind::Hot], acts });
+      }
+    }
+    let mut mp: Vec<Node> = multi_ops().iter().map(two).collect();
+    mp.push(Node::op(Op::FlatMap(Inner::Hot { base: 1, n: 1 }), Node::Src(0)));
+    fams.push((Family { name: "combining operators over hot inputs, second subscription sees a different arrival order".into(), pipelines: mp, worlds: Arc::new(w_h), oracles: vec![Oracle::Independence] }, 1));
+  }
   let mut mp: Vec<Node> = multi_ops().iter().map(two).collect();
   for k in [Inner::Just10, Inner::Cold2, Inner::Err, Inner::Empty] {
     mp.push(Node::op(Op::FlatMap(k), Node::Src(0)));
